@@ -50,7 +50,7 @@ VARIABLES
     flushq,     \* Seq of ids (flush tasks)
     views,      \* set of [vid, inst]  (open snapshots)
     trk,        \* [data : set of [inst, cnt], wm : Nat]  snapshot tracker
-    filt,       \* [1..MaxId -> BOOLEAN] compaction filter installed on the tree
+    filt,       \* [1..MaxId -> {"none", "A", "B"}] compaction filter installed on the tree
     \* ---- history / bookkeeping
     ref,        \* [Names -> [Keys -> Nat]] reference map (0 = absent) for existing names
     frozen,     \* [vid -> [Names -> [Keys -> Nat]]] content of each view when opened
@@ -149,15 +149,27 @@ KeepSet(S, wm) ==
 
 EvictTombs(S) == {e \in S : ~(e.t = "T" /\ \A f \in S : f.k = e.k => f.s >= e.s)}
 
-\* compaction filter, decided from the key: key 1 -> Remove, key 2 -> ReplaceValue(const),
-\* every other key -> Keep.  Applied to every value entry a compaction rewrites.
+\* compaction filters, decided from the key.  The builder's assigner hands every name in
+\* FilterNames its OWN filter (kind "A" for the name "a", kind "B" for every other name):
+\*   A: key 1 -> Remove, key 2 -> ReplaceValue(99), every other key -> Keep
+\*   B: key 1 -> ReplaceValue(98), key 2 -> Remove, every other key -> Keep
+\* Applied to every value entry a compaction rewrites.
 FilteredVal == 99
-FilterEntry(e) == IF e.t # "V" THEN e
-                  ELSE IF e.k = 1 THEN [e EXCEPT !.t = "T", !.v = NoVal]   \* Verdict::Remove
-                  ELSE IF e.k = 2 THEN [e EXCEPT !.v = FilteredVal]        \* Verdict::ReplaceValue
-                  ELSE e                                                   \* Verdict::Keep
-ApplyFilter(S, on) == IF on THEN {FilterEntry(e) : e \in S} ELSE S
-FilteredForm(k, v) == IF v = NoVal THEN NoVal ELSE IF k = 1 THEN NoVal ELSE IF k = 2 THEN FilteredVal ELSE v
+FilteredValB == 98
+KindFor(n) == IF n \notin FilterNames THEN "none" ELSE IF n = "a" THEN "A" ELSE "B"
+FilterEntryK(kind, e) ==
+    IF e.t # "V" \/ kind = "none" THEN e
+    ELSE IF kind = "A" THEN (IF e.k = 1 THEN [e EXCEPT !.t = "T", !.v = NoVal]      \* Verdict::Remove
+                             ELSE IF e.k = 2 THEN [e EXCEPT !.v = FilteredVal]       \* Verdict::ReplaceValue
+                             ELSE e)                                                \* Verdict::Keep
+    ELSE (IF e.k = 2 THEN [e EXCEPT !.t = "T", !.v = NoVal]
+          ELSE IF e.k = 1 THEN [e EXCEPT !.v = FilteredValB]
+          ELSE e)
+ApplyFilter(S, kind) == {FilterEntryK(kind, e) : e \in S}
+FilteredFormK(kind, k, v) ==
+    IF v = NoVal \/ kind = "none" THEN v
+    ELSE IF kind = "A" THEN (IF k = 1 THEN NoVal ELSE IF k = 2 THEN FilteredVal ELSE v)
+    ELSE (IF k = 2 THEN NoVal ELSE IF k = 1 THEN FilteredValB ELSE v)
 
 Merge(S, wm, evict, fon) ==
     LET kept == KeepSet(ApplyFilter(S, fon), wm)
@@ -252,7 +264,7 @@ Init ==
     /\ journals = <<[jid |-> 0, recs |-> <<>>]>>
     /\ jmgr = <<>> /\ flushq = <<>>
     /\ views = {} /\ trk = [data |-> {}, wm |-> 0]
-    /\ filt = [i \in Ids |-> FALSE]
+    /\ filt = [i \in Ids |-> "none"]
     /\ ref = [n \in Names |-> NoRef]
     /\ frozen = <<>>
     /\ taint = {} /\ kf = {} /\ everDel = {}
@@ -283,7 +295,7 @@ CreateKeyspace(n) ==
        /\ dirs' = dirs \cup {id}
        /\ lsm' = [lsm EXCEPT ![id] = EmptyLsm]
        /\ old' = [old EXCEPT ![id] = <<>>]
-       /\ filt' = [filt EXCEPT ![id] = (n \in FilterNames)]
+       /\ filt' = [filt EXCEPT ![id] = KindFor(n)]
        /\ seqno' = seqno + 1
        /\ visible' = IF seqno + 1 > visible THEN seqno + 1 ELSE visible
        /\ ref' = [ref EXCEPT ![n] = NoRef]
@@ -438,7 +450,7 @@ Ingest(n, ks, tomb) ==
            s1  == seqno                     \* version seqno of the flush, if any
            L1  == IF hasMem
                   THEN [a |-> {}, sl |-> <<>>,
-                        rn |-> <<Merge(UnionSeq(mem), 0, FALSE, FALSE)>> \o L.rn, vs |-> s1]
+                        rn |-> <<Merge(UnionSeq(mem), 0, FALSE, "none")>> \o L.rn, vs |-> s1]
                   ELSE L
            g   == IF hasMem THEN seqno + 1 ELSE seqno      \* global seqno
            run == {Entry(k, g, IF k \in tomb THEN "T" ELSE "V",
@@ -514,7 +526,7 @@ WorkerFlush(jrot) ==
            s  == seqno
            Lf == IF doFlush
                  THEN [a |-> L.a, sl |-> <<>>,
-                       rn |-> <<Merge(UnionSeq(L.sl), wm, FALSE, FALSE)>> \o L.rn, vs |-> s]
+                       rn |-> <<Merge(UnionSeq(L.sl), wm, FALSE, "none")>> \o L.rn, vs |-> s]
                  ELSE L
            Ls == [lsm EXCEPT ![id] = Lf]
            \* journal rotation happens before the flush: watermarks from the pre-flush state
@@ -553,7 +565,7 @@ Compact(n, i, j) ==
            L  == lsm[id]
        IN
        /\ 1 <= i /\ i <= j /\ j <= Len(L.rn)
-       /\ (i < j \/ filt[id] \/ j = Len(L.rn))
+       /\ (i < j \/ filt[id] # "none" \/ j = Len(L.rn))
        /\ LET wm  == trk.wm
               out == Merge(UnionSeq(SubSeq(L.rn, i, j)), wm, j = Len(L.rn), filt[id])
               rn2 == SubSeq(L.rn, 1, i - 1) \o (IF out = {} THEN <<>> ELSE <<out>>)
@@ -763,8 +775,8 @@ MayReplayOverIngested(js, known) ==
 \* its journal record, which is therefore not recognized as "already persisted" and replayed at
 \* the next recovery - the item is back in its original form.
 FilterReplayRisk(id, k) ==
-    /\ id \in LiveIds /\ filt[id]
-    /\ FilterEntry(Entry(k, 0, "V", 1, FALSE)).t = "T"           \* the filter's verdict for k is Remove
+    /\ id \in LiveIds /\ filt[id] # "none"
+    /\ FilterEntryK(filt[id], Entry(k, 0, "V", 1, FALSE)).t = "T"   \* the filter's verdict for k is Remove
     /\ \E n \in LiveNames : kmap[n] = id /\ ref[n][k] # NoVal /\ ScanRead(id, k, Inf) = NoVal
     /\ \E x \in 1..Len(journals) : \E y \in 1..Len(journals[x].recs) :
           LET r == journals[x].recs[y] IN
@@ -797,7 +809,7 @@ CloseReopen ==
        /\ kf' = (IF \E s \in JournalSeqnos(journals) : R.sq <= s THEN kf \cup {"D12"} ELSE kf)
                 \cup (IF FindingD24 THEN {"D24"} ELSE {})
        /\ last' = [a |-> "Reopen", fq |-> flushq']
-       /\ filt' = [i \in Ids |-> i \in R.known /\ MetaName(meta, i) \in FilterNames]
+       /\ filt' = [i \in Ids |-> IF i \in R.known THEN KindFor(MetaName(meta, i)) ELSE "none"]
     /\ nreopen' = nreopen + 1
     /\ UNCHANGED <<meta, journals, ref, ing, everDel, nops, nmaint, nviews>>
 
@@ -833,7 +845,7 @@ PointEqScan ==
     \A n \in LiveNames : Untainted(kmap[n]) =>
         \A k \in Keys : PointRead(kmap[n], k, Inf) = ScanRead(kmap[n], k, Inf)
 ViewEqRef ==
-    \A n \in LiveNames : (Untainted(kmap[n]) /\ ~filt[kmap[n]]) =>
+    \A n \in LiveNames : (Untainted(kmap[n]) /\ filt[kmap[n]] = "none") =>
         \A k \in Keys : ScanRead(kmap[n], k, Inf) = ref[n][k]
 
 \* C05: every live view still reads what it saw when it was opened, by point read and by
@@ -878,7 +890,7 @@ CrashSafe ==
     /\ ~R.panic
     /\ \A n \in Names : R.km[n] = kmap[n] \/ kmap[n] \in zombie
     /\ \A n \in LiveNames :
-          (kmap[n] \notin taint \cup R.tnt /\ ~filt[kmap[n]]) =>
+          (kmap[n] \notin taint \cup R.tnt /\ filt[kmap[n]] = "none") =>
              \A k \in Keys : /\ ScanReadV(R.L[kmap[n]], k, Inf) = ref[n][k]
                               /\ PointReadV(R.L[kmap[n]], k, Inf) = ref[n][k]
 
@@ -899,15 +911,15 @@ NoFinding_D15 == ~FindingD15
 
 \* C18: compaction filters
 FilteredFormOnly ==
-    \A n \in LiveNames : (Untainted(kmap[n]) /\ filt[kmap[n]]) =>
+    \A n \in LiveNames : (Untainted(kmap[n]) /\ filt[kmap[n]] # "none") =>
         \A k \in Keys : LET v == ScanRead(kmap[n], k, Inf) IN
-            /\ (v = ref[n][k] \/ v = FilteredForm(k, ref[n][k]))
+            /\ (v = ref[n][k] \/ v = FilteredFormK(filt[kmap[n]], k, ref[n][k]))
             /\ PointRead(kmap[n], k, Inf) = v
-AssignedIffAssigner == \A n \in LiveNames : filt[kmap[n]] <=> (n \in FilterNames)
+AssignedIffAssigner == \A n \in LiveNames : filt[kmap[n]] = KindFor(n)
 \* a key observed in filtered form stays so until it is written again
 \* (also across close + reopen; waived only for the signature of the open finding D24)
 FilteredIsSticky ==
-    [][\A n \in Names : (kmap[n] # 0 /\ kmap'[n] = kmap[n] /\ filt[kmap[n]]) =>
+    [][\A n \in Names : (kmap[n] # 0 /\ kmap'[n] = kmap[n] /\ filt[kmap[n]] # "none") =>
         \A k \in Keys :
             (/\ ref'[n][k] = ref[n][k] /\ nops' = nops
              /\ ScanRead(kmap[n], k, Inf) # ref[n][k]
@@ -915,7 +927,7 @@ FilteredIsSticky ==
                 (ScanRead(kmap[n], k, Inf))' = ScanRead(kmap[n], k, Inf)]_vars
 \* the same without the waiver (signature run)
 FilteredIsStickyStrict ==
-    [][\A n \in Names : (kmap[n] # 0 /\ kmap'[n] = kmap[n] /\ filt[kmap[n]]) =>
+    [][\A n \in Names : (kmap[n] # 0 /\ kmap'[n] = kmap[n] /\ filt[kmap[n]] # "none") =>
         \A k \in Keys :
             (/\ ref'[n][k] = ref[n][k] /\ nops' = nops
              /\ ScanRead(kmap[n], k, Inf) # ref[n][k]) =>
